@@ -21,6 +21,7 @@
 #############################################################################
 
 from abc import abstractmethod
+import datetime
 import logging
 from typing import AbstractSet
 
@@ -32,11 +33,14 @@ import urllib.parse
 import flask  # type: ignore
 from flask.views import MethodView  # type: ignore
 
+from dashlive.drm.system import DrmSystem
 from dashlive.server import models
 from dashlive.server.routes import routes, Route
 from dashlive.server.options.container import OptionsContainer
 from dashlive.server.options.repository import OptionsRepository
+from dashlive.server.options.utc_time_options import UTCMethod
 from dashlive.utils.json_object import JsonObject
+from dashlive.utils.timezone import UTC
 
 from .csrf import CsrfProtection
 from .exceptions import CsrfFailureException
@@ -104,10 +108,50 @@ class RequestHandlerBase(MethodView):
                 except KeyError:
                     pass
         options = OptionsRepository.convert_cgi_options(args, defaults=defaults)
+        self.check_option_values(options)
         if features is not None:
             options.remove_unsupported_features(features)
         options.add_field('mode', mode)
         return options
+
+    # largest number of seconds that is accepted for an option that is
+    # used as a time span (one hundred years)
+    MAX_TIME_SPAN: int = 100 * 366 * 24 * 3600
+
+    @staticmethod
+    def check_option_values(options: OptionsContainer) -> None:
+        """
+        Checks the values that the option parser has accepted but which can
+        not be used to produce a response. Raises a ValueError, which every
+        caller of calculate_options() turns into a 400 response.
+        """
+        for drm_name, _locations in options.drmSelection:
+            if drm_name not in DrmSystem.values():
+                raise ValueError(f'Unknown DRM system "{drm_name}"')
+        if (
+                options.utcMethod is not None and
+                options.utcMethod not in UTCMethod.cgi_choices):
+            raise ValueError(f'Unknown time method: "{options.utcMethod}"')
+        ast = options.availabilityStartTime
+        if ast is None:
+            # an empty value selects the default start time
+            defaults = OptionsRepository.get_default_options()
+            options.availabilityStartTime = defaults.availabilityStartTime
+        elif not isinstance(ast, str):
+            # anything other than one of the special names has to be a
+            # point in time (not a duration or a time of day)
+            if not isinstance(ast, datetime.datetime):
+                raise ValueError(f'Invalid availabilityStartTime: "{ast}"')
+            if ast.tzinfo is None:
+                options.availabilityStartTime = ast.replace(tzinfo=UTC())
+            else:
+                # raises ValueError if the UTC offset is 24 hours or more
+                ast.utcoffset()
+        for name in ['clockDrift', 'leeway', 'minimumUpdatePeriod',
+                     'timeShiftBufferDepth']:
+            value = getattr(options, name)
+            if value is not None and abs(value) > RequestHandlerBase.MAX_TIME_SPAN:
+                raise ValueError(f'{name} {value} is out of range')
 
     def has_http_range(self) -> bool:
         return 'range' in flask.request.headers
